@@ -3,7 +3,6 @@ use crate::{
     geometry::{Dimensions, OriginDimensions, Point, Size},
     image::ImageDrawable,
     primitives::Rectangle,
-    transform::Transform,
 };
 
 /// Sub image.
@@ -94,9 +93,17 @@ where
     where
         DT: DrawTarget<Color = Self::Color>,
     {
-        let area = area.translate(self.area.top_left);
+        // An area whose corner isn't representable in the parent's coordinates is outside the parent.
+        let top_left = match (
+            area.top_left.x.checked_add(self.area.top_left.x),
+            area.top_left.y.checked_add(self.area.top_left.y),
+        ) {
+            (Some(x), Some(y)) => Point::new(x, y),
+            _ => return Ok(()),
+        };
 
-        self.parent.draw_sub_image(target, &area)
+        self.parent
+            .draw_sub_image(target, &Rectangle::new(top_left, area.size))
     }
 }
 
